@@ -291,6 +291,30 @@ def check_logpdf(ck, lg, y, mean, S, what):
     ck.eq(what + ": innovation covariance S = C P⁻ Cᵀ + R", cov, S)
 
 
+def t_guard(asg):
+    """Does this case run the T > 1 recursion?  None if the case is not split on the sequence length."""
+    for c, v in asg.items():
+        if c[0] == "cmp" and is_const(c[3], 1) and c[1] in (">", "<=", ">=", "<"):
+            if c[1] == ">":
+                return v
+            if c[1] == "<=":
+                return not v
+        if c[0] == "cmp" and is_const(c[3], 2) and c[1] in (">=", "<"):
+            return v if c[1] == ">=" else not v
+    return None
+
+
+def is_flipped(val):
+    """(flipped?, inner) for x[::-1] / jnp.flip(x, axis=0) / jnp.flip(x)."""
+    if val[0] == "idx" and val[2] == ("slice", NONE, NONE, C(-1)):
+        return True, val[1]
+    if is_call(val, name="jax.numpy.flip") and val[2] and (dict(val[3]).get("axis", C(0)) == C(0) or (len(val[2]) > 1 and val[2][1] == C(0))):
+        return True, val[2][0]
+    if is_call(val, name="jax.numpy.flipud") and val[2]:
+        return True, val[2][0]
+    return False, val
+
+
 def assemble(ctx, ev, s, sid, construct, loc, n_out, final_idx=None, reverse_expected=False, rule="ROLE-time-index"):
     """T>1 guard; per-step outputs written to rows 1: (or :-1 reversed); first/last row from the boundary step."""
     ret = items(s.ret)
@@ -300,13 +324,11 @@ def assemble(ctx, ev, s, sid, construct, loc, n_out, final_idx=None, reverse_exp
     for k in range(n_out):
         t = ret[k]
         cases = all_cases(t)
-        guards = {c for asg, _ in cases for c in asg}
-        okg = any(c[0] == "cmp" and c[1] == ">" and is_const(c[3], 1) for c in guards)
+        okg = any(t_guard(asg) is not None for asg, _ in cases)
         if not okg:
             problems.append(f"output {k}: recursion not guarded by T > 1")
         for asg, leaf in cases:
-            gt = [v for c, v in asg.items() if c[0] == "cmp" and c[1] == ">" and is_const(c[3], 1)]
-            if gt and gt[0]:
+            if t_guard(asg):
                 sets = [x for x in subterms(leaf) if is_call(x) and x[1][0] == "attr" and x[1][2] == "set" and any(y[0] == "stack" and y[1] == sid for y in subterms(x[2][0]))]
                 if not sets:
                     problems.append(f"output {k}: per-step results never written back")
@@ -314,7 +336,7 @@ def assemble(ctx, ev, s, sid, construct, loc, n_out, final_idx=None, reverse_exp
                 st = sets[0]
                 where_ = st[1][1][2]
                 val = st[2][0]
-                flipped = val[0] == "idx" and val[2] == ("slice", NONE, NONE, C(-1))
+                flipped = is_flipped(val)[0]
                 if not reverse_expected:
                     if where_ != ("slice", C(1), NONE, NONE) or flipped:
                         problems.append(f"output {k}: per-step results must fill rows [1:] in scan order (found rows {short(where_, ev)}, reversed={flipped})")
@@ -388,11 +410,11 @@ def backward_assembly(ctx, ev, s, sid, rec, construct, loc, n_out, T_term, rule=
     for k in range(n_out):
         t = ret[k]
         for asg, leaf in all_cases(t):
-            gt = [v for c, v in asg.items() if c[0] == "cmp" and c[1] == ">" and is_const(c[3], 1)]
-            if not gt:
+            tg = t_guard(asg)
+            if tg is None:
                 problems.append(f"output {k}: recursion not guarded by T > 1")
                 continue
-            if not gt[0]:
+            if not tg:
                 continue
             sets = [x for x in subterms(leaf) if is_call(x) and x[1][0] == "attr" and x[1][2] == "set" and any(y[0] == "stack" and y[1] == sid for y in subterms(x[2][0]))]
             if not sets:
@@ -401,7 +423,7 @@ def backward_assembly(ctx, ev, s, sid, rec, construct, loc, n_out, T_term, rule=
             st = sets[0]
             where_ = st[1][1][2]
             val = st[2][0]
-            flipped = val[0] == "idx" and val[2] == ("slice", NONE, NONE, C(-1))
+            flipped = is_flipped(val)[0]
             if where_ != ("slice", NONE, C(-1), NONE):
                 problems.append(f"output {k}: backward results must fill rows [:-1] (found {short(where_, ev)})")
             # stacked outputs are in the order of xs: descending indices need one flip, ascending none
@@ -537,6 +559,21 @@ class Roles:
         if h == "attr" and t[2] == "T":
             r = self.of(t[1])
             return None if r is None else tuple(reversed(r))
+        if is_call(t, name="jax.numpy.transpose") and len(t[2]) == 1 and not t[3]:
+            r = self.of(t[2][0])
+            return None if r is None else tuple(reversed(r))
+        if is_call(t) and t[1][0] == "name" and t[1][1] in ("jax.numpy.swapaxes", "jax.numpy.moveaxis") and len(t[2]) == 3 \
+                and all(x[0] == "const" and isinstance(x[1], int) for x in t[2][1:]):
+            r = self.of(t[2][0])
+            if r is None:
+                return None
+            r = list(r)
+            i, j = t[2][1][1] % len(r), t[2][2][1] % len(r)
+            if t[1][1].endswith("swapaxes"):
+                r[i], r[j] = r[j], r[i]
+            else:
+                r.insert(j, r.pop(i))
+            return tuple(r)
         if is_call(t, name="jax.scipy.special.logsumexp") and len(t[2]) == 1:
             r = self.of(t[2][0])
             if r is None:
